@@ -336,3 +336,183 @@ def rule_pivot_choice(ctx: Ctx, rel: str) -> None:
     if not seen_z:
         ctx.fail("pivot.choice", m, had, "inverse_circuit's Hadamard block has no pivot step for a column that holds only Pauli Z", func="inverse_circuit",
                  construct="inverse_circuit: Z-only column unhandled")
+
+
+# ------------------------------------------------------------------------------------------------------- trial.fresh
+
+
+def _mutated_params(fn: ast.FunctionDef) -> Set[int]:
+    """positions of parameters that the function stores into in place (p[...] = ..., p[...] op= ..., p.fill/…)"""
+    ps = [a.arg for a in fn.args.posonlyargs + fn.args.args]
+    rebound = set()
+    out: Set[int] = set()
+    for s in ast.walk(fn):
+        tg = []
+        if isinstance(s, ast.Assign):
+            tg = s.targets
+        elif isinstance(s, (ast.AugAssign, ast.AnnAssign)):
+            tg = [s.target]
+        for t in tg:
+            if isinstance(t, ast.Name) and t.id in ps and not isinstance(s, ast.AugAssign):
+                rebound.add(t.id)
+            strong, weak = _names(t)
+            for n in weak:
+                if n in ps:
+                    out.add(ps.index(n))
+            if isinstance(s, ast.AugAssign) and isinstance(t, ast.Name) and t.id in ps:
+                out.add(ps.index(t.id))  # ndarray += mutates the caller's array
+    return {i for i in out if ps[i] not in rebound}
+
+
+def rule_trial_fresh(ctx: Ctx, rel: str) -> None:
+    """trial.fresh: inside a loop, an object handed to a helper that stores into it in place is created in the same
+    iteration; otherwise what the helper wrote for the previous trial is still in it when the next trial starts."""
+    repo = ctx.repo
+    m = repo.module(rel)
+    funcs = {f.name: f for f in m.tree.body if isinstance(f, ast.FunctionDef)}
+    mut = {n: _mutated_params(f) for n, f in funcs.items()}
+    sites = 0
+    for fname, fn in funcs.items():
+        loops_ = [s for s in ast.walk(fn) if isinstance(s, ast.For)]
+        for loop in loops_:
+            # outermost loops only: an inner loop is analysed as part of its outer loop's body as well as on its own
+            for c in calls_in(loop):
+                callee = call_name(c)
+                if callee not in mut or not mut[callee]:
+                    continue
+                ps = [a.arg for a in funcs[callee].args.posonlyargs + funcs[callee].args.args]
+                for i in mut[callee]:
+                    a = c.args[i] if i < len(c.args) else next((k.value for k in c.keywords if k.arg == ps[i]), None)
+                    if not isinstance(a, ast.Name):
+                        continue
+                    sites += 1
+                    ctx.touch(m, fn)
+                    rd = ReachingDefs(loop)
+                    st = rd.at.get(id(_stmt_of(loop, c)))
+                    if st is None:
+                        continue  # the call sits in a nested construct the walker does not enter (comprehension): not a per-iteration site
+                    if PREV in rd.get(st, a.id):
+                        ctx.fail("trial.fresh", m, c,
+                                 f"{fname}: `{a.id}` is handed to {callee}(), which stores into its parameter `{ps[i]}` in place, but `{a.id}` is not "
+                                 f"created inside the `for {short(loop.target)}` iteration that makes the call: the entries {callee} wrote for the previous "
+                                 f"iteration are still in it, so the vector returned for this one is not the solution of this iteration's system",
+                                 func=fname, construct=f"{fname}: {a.id} shared across iterations with in-place {callee}")
+                    else:
+                        ctx.ok("trial.fresh", m, c, what=f"{fname}: `{a.id}` passed to in-place {callee} is created per iteration of `{short(loop.target)}`")
+    if sites == 0:
+        raise AnalysisError(f"{rel}: no loop hands a local object to an in-place helper (the trial loop moved?)")
+
+
+# --------------------------------------------------------------------------------------------------------- gf2.truth
+
+
+class _Unreduced(Exception):
+    def __init__(self, node):
+        self.node = node
+
+
+def rule_gf2_truth(ctx: Ctx, rel: str, qual: str) -> None:
+    """gf2.truth: a GF(2) quantity that decides a yes/no answer by its truthiness is reduced mod 2 first (1 + 1 is 2, which
+    is truthy, where the field says 0)."""
+    repo = ctx.repo
+    m = repo.module(rel)
+    fn = repo.anchor(rel, qual)
+    ctx.touch(m, fn)
+    contrib: Dict[str, List[ast.AST]] = {}
+    for s in ast.walk(fn):
+        if isinstance(s, ast.Assign) and len(s.targets) == 1 and isinstance(s.targets[0], ast.Name):
+            contrib.setdefault(s.targets[0].id, []).append(s.value)
+        if isinstance(s, ast.Call) and call_attr(s) == "append" and isinstance(s.func.value, ast.Name) and s.args:
+            contrib.setdefault(s.func.value.id, []).append(s.args[0])
+    params = {a.arg for a in fn.args.args}
+    seen: Set[str] = set()
+
+    def bit(e: ast.AST) -> bool:
+        """is the value of e an array/scalar of 0/1 (or a bool)?  raises _Unreduced at a truth test of a non-bit value"""
+        if isinstance(e, ast.Constant):
+            return e.value in (0, 1, True, False)
+        if isinstance(e, (ast.List, ast.Tuple)):
+            return all(bit(x) for x in e.elts)
+        if isinstance(e, ast.Name):
+            if e.id in params:
+                return True
+            if e.id in seen:
+                return True
+            seen.add(e.id)
+            cs = [c for c in contrib.get(e.id, []) if not (isinstance(c, (ast.List,)) and not c.elts)]
+            if not cs and e.id not in contrib:
+                raise AnalysisError(f"{qual}: `{e.id}` not resolved")
+            return all(bit(c) for c in cs)
+        if isinstance(e, ast.Subscript):
+            return bit(e.value)
+        if isinstance(e, ast.Attribute):
+            return bit(e.value) if e.attr in ("T",) else True
+        if isinstance(e, ast.BinOp):
+            if isinstance(e.op, ast.Mod) and isinstance(e.right, ast.Constant) and e.right.value == 2:
+                _scan(e.left)
+                return True
+            if isinstance(e.op, ast.BitAnd) and any(isinstance(x, ast.Constant) and x.value == 1 for x in (e.left, e.right)):
+                _scan(e.left), _scan(e.right)
+                return True
+            if isinstance(e.op, (ast.Mult, ast.BitXor, ast.BitAnd, ast.BitOr)):
+                return bit(e.left) and bit(e.right)
+            _scan(e.left), _scan(e.right)
+            return False
+        if isinstance(e, ast.UnaryOp):
+            return isinstance(e.op, ast.Not) or bit(e.operand)
+        if isinstance(e, ast.Compare):
+            _scan(e.left)
+            for c in e.comparators:
+                _scan(c)
+            return True
+        if isinstance(e, ast.BoolOp):
+            return all(bit(v) for v in e.values)
+        if isinstance(e, (ast.ListComp, ast.GeneratorExp)):
+            return bit(e.elt)
+        if isinstance(e, ast.Call):
+            cn = call_name(e) or ""
+            ca = call_attr(e) or ""
+            if cn in ("all", "any", "np.all", "np.any", "bool") or ca in ("all", "any"):
+                arg = e.args[0] if e.args else (e.func.value if isinstance(e.func, ast.Attribute) else None)
+                if arg is not None and not bit(arg):
+                    raise _Unreduced(arg)
+                return True
+            if cn in ("int", "np.array", "np.asarray", "list", "tuple", "np.int64", "abs", "np.abs") and e.args:
+                return bit(e.args[0])
+            if ca in ("reshape", "astype", "copy", "flatten", "ravel", "transpose"):
+                return bit(e.func.value)
+            if cn in ("np.mod", "np.remainder") and len(e.args) == 2 and isinstance(e.args[1], ast.Constant) and e.args[1].value == 2:
+                return True
+            if cn in ("np.logical_and", "np.logical_or", "np.logical_xor", "np.logical_not", "np.bitwise_xor", "np.bitwise_and"):
+                return True
+            if cn in ("np.shape", "len", "range"):
+                return True
+            raise AnalysisError(f"{qual}: value `{short(e)}` not classified (gf2.truth)")
+        raise AnalysisError(f"{qual}: expression `{short(e)}` not classified (gf2.truth)")
+
+    def _scan(e: ast.AST) -> None:
+        bit(e)
+
+    rets = [r for r in ast.walk(fn) if isinstance(r, ast.Return) and r.value is not None]
+    tests = [s.test for s in ast.walk(fn) if isinstance(s, (ast.If, ast.While, ast.IfExp))]
+    if not rets:
+        raise AnalysisError(f"{qual}: no return value")
+    n_ok = 0
+    for e in [r.value for r in rets] + tests:
+        try:
+            seen.clear()
+            good = bit(e)
+            if not good:
+                raise _Unreduced(e)
+            n_ok += 1
+        except _Unreduced as u:
+            node = u.node
+            shown = node
+            if isinstance(node, ast.Name) and contrib.get(node.id):
+                shown = contrib[node.id][-1]
+            ctx.fail("gf2.truth", m, e,
+                     f"{qual} decides by the truthiness of `{short(node, 50)}` = `{short(shown, 90)}`, a sum over GF(2) that is never reduced mod 2: "
+                     f"1 + 1 = 2 is truthy although the determinant is 0, so a singular block (all ones) is accepted as a Clifford",
+                     func=qual, construct=f"{qual}: unreduced GF(2) sum decides validity")
+            return
+    ctx.ok("gf2.truth", m, rets[0], what=f"{qual}: every value tested for truth is reduced mod 2 ({n_ok} tests)")
